@@ -207,6 +207,12 @@ def _instant_events(st, dt, n):
             for d, label in ((0.3, "plus_frac"), (-0.3, "minus_frac"), (0.5, "plus_half"), (1.7, "plus_1.7")):
                 evs.append({"kind": "impulse_eci", "agent": 10003, "offset": k * dt + d, "vec": [DV * s3, 0.0, 0.0], "rel": label})
                 s3 *= -1
+        # several impulses of ONE agent at the SAME instant (on a boundary and inside a step): each is its own event and
+        # each delta-v must be applied exactly once (different directions so that a dropped twin is visible)
+        for k in range(2, n + 1, 4):
+            for off, label in ((k * dt, "twin_boundary"), (k * dt - dt // 4 - 1, "twin_mid")):
+                evs.append({"kind": "impulse_eci", "agent": 10003, "offset": off, "vec": [0.0, DV, 0.0], "rel": label})
+                evs.append({"kind": "impulse_ntw", "agent": 10003, "offset": off, "vec": [0.0, 0.0, DV], "rel": label})
     for e in evs:
         e.setdefault("rel", "boundary")
     evs.sort(key=lambda e: e["offset"])  # builder: sorted(events, key=start_time) - stable
